@@ -70,6 +70,7 @@ pub struct PostRec {
 	pub scripted: Option<String>,
 	pub reply_status: u16,
 	pub reply_type: Option<String>,
+	pub reply_nonce: Option<String>,
 	pub lost: bool,
 }
 
@@ -404,6 +405,7 @@ impl Ca {
 				}
 			};
 			let n = self.new_nonce(env);
+			rec.reply_nonce = Some(n.clone());
 			r.headers.push(("Replay-Nonce".into(), n));
 			r.headers.push(("Cache-Control".into(), "no-store".into()));
 			rec.reply_status = r.status;
@@ -543,6 +545,7 @@ impl Ca {
 			scripted: None,
 			reply_status: 0,
 			reply_type: None,
+			reply_nonce: None,
 			lost: false,
 		};
 		let ct = req
